@@ -627,12 +627,14 @@ class _Lazy:
         return self.val
 
 
-def _solver(q, timeout_ms, seed=None):
+def _solver(q, timeout_ms, seed=None, options=None):
     s = z3.Solver()
     s.set("timeout", int(timeout_ms))
     if seed is not None:
         s.set("random_seed", seed)
         s.set("smt.random_seed", seed)
+    for k, v in (options or {}).items():
+        s.set(k, v)
     if isinstance(q, str):
         s.from_string(q)
     else:
@@ -684,30 +686,44 @@ def solve_text(text, relaxed, timeout_ms=10000, cvc5_timeout_ms=20000, noseq=Non
     return _ladder(_Const(text), _Const(relaxed), timeout_ms, cvc5_timeout_ms, _Const(noseq), _Const(linear), _Const(sliced))
 
 
+STRATEGIES = (("eager threshold 20", {"smt.qi.eager_threshold": 20.0}), ("no mbqi", {"smt.mbqi": False, "auto_config": False}))
+
+
 def _ladder(L_text, L_relaxed, timeout_ms, cvc5_timeout_ms, L_noseq, L_linear, L_sliced):
-    """the attempts, all sound for proving, cheapest first: cones of influence, linear abstraction, the full
-    query, the query without string assumptions, two more random seeds, cvc5"""
+    """The attempts, all sound for proving (`unsat` of the query or of a query with fewer / weaker assumptions):
+    the full query briefly; the full query under two other instantiation strategies (lazier E-matching keeps the
+    frame axioms of unrelated heap maps from flooding the search; pure E-matching without model-based
+    instantiation); cones of influence; the linear abstraction; the full query with the whole budget; the query
+    without string assumptions; two more random seeds; cvc5.  Only a validated `sat` of the full query refutes."""
     t0 = time.time()
-    for si, q in enumerate(L_sliced.get() or []):
-        if _solver(q, max(1500, int(timeout_ms) // 6)).check() == z3.unsat:
-            return {"status": "discharged", "backend": "z3", "seconds": round(time.time() - t0, 4), "note": f"cone of influence (width {si})"}
-    linear = L_linear.get()
-    if linear:
-        # most obligations of code that mentions products need no non-linear reasoning: try the
-        # linear abstraction first (an `unsat` of the weaker query is a proof), it is much faster
-        if _solver(linear, max(2000, int(timeout_ms) // 3)).check() == z3.unsat:
-            return {"status": "discharged", "backend": "z3", "seconds": round(time.time() - t0, 4), "note": "products treated as uninterpreted"}
+    T = int(timeout_ms)
     text = L_text.get()
-    s = _solver(text, timeout_ms)
+    done = lambda note=None: {"status": "discharged", "backend": "z3", "seconds": round(time.time() - t0, 4), **({"note": note} if note else {})}
+    s = _solver(text, max(1500, T // 4))
+    r = s.check()
+    if r == z3.unsat:
+        return done()
+    if r == z3.sat and _model_ok(s):
+        return {"status": "refuted", "backend": "z3", "seconds": round(time.time() - t0, 4), "model": _model_str(s)}
+    for label, options in STRATEGIES:
+        if _solver(text, max(1500, T // 6), options=options).check() == z3.unsat:
+            return done(f"instantiation strategy: {label}")
+    for si, q in enumerate(L_sliced.get() or []):
+        if _solver(q, max(1500, T // 8)).check() == z3.unsat:
+            return done(f"cone of influence (width {si})")
+    linear = L_linear.get()
+    if linear and _solver(linear, max(2000, T // 3)).check() == z3.unsat:
+        return done("products treated as uninterpreted")
+    s = _solver(text, T)
     r = s.check()
     dt = time.time() - t0
     if r == z3.unsat:
-        return {"status": "discharged", "backend": "z3", "seconds": round(dt, 4)}
-    short_ms = max(2000, int(timeout_ms) // 3)
+        return done()
+    short_ms = max(2000, T // 3)
     noseq = L_noseq.get() if r == z3.unknown else None
     if r == z3.unknown and noseq:
         if _solver(noseq, short_ms).check() == z3.unsat:
-            return {"status": "discharged", "backend": "z3", "seconds": round(time.time() - t0, 4), "note": "without string assumptions"}
+            return done("without string assumptions")
     if r == z3.unknown:
         # quantifier instantiation order depends on the solver's random seed: retry before giving up
         for seed in (7, 23):
@@ -717,7 +733,7 @@ def _ladder(L_text, L_relaxed, timeout_ms, cvc5_timeout_ms, L_noseq, L_linear, L
                 s2 = _solver(txt, short_ms, seed)
                 r2 = s2.check()
                 if r2 == z3.unsat:
-                    return {"status": "discharged", "backend": "z3", "seconds": round(time.time() - t0, 4), "note": f"retry seed {seed}"}
+                    return done(f"retry seed {seed}")
                 if r2 == z3.sat and txt is text and _model_ok(s2):
                     return {"status": "refuted", "backend": "z3", "seconds": round(time.time() - t0, 4), "model": _model_str(s2)}
         dt = time.time() - t0
